@@ -192,8 +192,95 @@ def run(ctx):
         elif strip_metadata(b) != ref:
             ctx.fail("c_output_depends_on_entry_point", {"module": f}, first_diff(ref, strip_metadata(b)),
                      "cythonize() output = Main.compile() output apart from the metadata block")
+    if not quick:
+        run_selfcompiled(ctx, wd, src, usable, os.path.join(wd, "out_seed%d" % seeds[0]))
     ctx.extra["modules_compared"] = usable
     ctx.extra["bytes_compared"] = sum(len(read(os.path.join(wd, "out_seed%d" % seeds[0]), f) or b"") for f in usable)
+
+
+SELF_MODULES = ["Cython/Compiler/Scanning.py", "Cython/Compiler/Parsing.py", "Cython/Compiler/Visitor.py",
+                "Cython/Compiler/FlowControl.py", "Cython/Compiler/Code.py", "Cython/Compiler/LineTable.py",
+                "Cython/Compiler/StringEncoding.py", "Cython/Utils.py", "Cython/StringIOTree.py", "Cython/LZSS.py",
+                "Cython/Plex/Scanners.py", "Cython/Plex/Actions.py", "Cython/Plex/Machines.py", "Cython/Plex/Transitions.py",
+                "Cython/Plex/DFA.py"]
+
+SELF_WORKER = r'''
+import sys, os, json
+spec = json.loads(sys.argv[1])
+sys.path.insert(0, spec["tree"])
+sys.dont_write_bytecode = True
+from Cython.Compiler import Main, Options
+import Cython.Compiler.Parsing, Cython.Compiler.Code, Cython.Compiler.Scanning
+compiled = [m for m in ("Cython.Compiler.Parsing", "Cython.Compiler.Code", "Cython.Compiler.Scanning", "Cython.Compiler.Visitor",
+                        "Cython.Utils", "Cython.StringIOTree", "Cython.Plex.Scanners")
+            if (getattr(sys.modules.get(m), "__file__", "") or "").endswith(".so")]
+os.chdir(spec["cwd"])
+res = {"_compiled_modules": compiled}
+for f in spec["files"]:
+    out = os.path.join(spec["outdir"], os.path.basename(f)[:-4] + ".c")
+    try:
+        r = Main.compile(f, Main.CompilationOptions(Main.default_options, output_file=out,
+                         compiler_directives=dict(Options.get_directive_defaults(), language_level=3)))
+        res[f] = r.num_errors == 0 and os.path.exists(out)
+    except BaseException as e:
+        res[f] = "crash %r" % (e,)
+print(json.dumps(res))
+'''
+
+
+def build_selfcompiled(ctx, wd):
+    """copy the compiler sources to scratch and compile the modules that setup.py normally
+    compiles, with the compiler under test itself (pure-Python run) + gcc -O0"""
+    tree = os.path.join(wd, "selfc")
+    shutil.copytree(os.path.join(ctx.repo, "Cython"), os.path.join(tree, "Cython"),
+                    ignore=shutil.ignore_patterns("*.so", "__pycache__", "*.pyc", "*.o"))
+    def one(rel):
+        src = os.path.join(tree, rel)
+        c_file = src[:-3] + ".c"
+        r = cybuild.translate(src, c_file, directives={"language_level": 3}, timeout=1500)
+        if not r.get("ok"):
+            return rel, "translate: " + (r.get("crash") or r.get("errors") or "")[-300:]
+        so = src[:-3] + cybuild.EXT
+        rc, err = cybuild.cc(c_file, so, cflags=["-O0"], timeout=1500)
+        return rel, (None if rc == 0 else "cc: " + err[-300:])
+    with cf.ThreadPoolExecutor(max_workers=15) as ex:
+        results = list(ex.map(one, SELF_MODULES))
+    return tree, {rel: err for rel, err in results}
+
+
+def run_selfcompiled(ctx, wd, src, usable, ref_dir):
+    tree, status = build_selfcompiled(ctx, wd)
+    failed = {k: v for k, v in status.items() if v}
+    if failed:
+        ctx.note("self-compilation: modules that did not build (left as .py): %s" % json.dumps(failed)[:600])
+    od = os.path.join(wd, "out_selfc")
+    os.makedirs(od, exist_ok=True)
+    env = cybuild.base_env()
+    env["PYTHONPATH"] = tree
+    env["PYTHONHASHSEED"] = "7"
+    path = os.path.join(wd, "c42_self_worker.py")
+    with open(path, "w") as f:
+        f.write(SELF_WORKER)
+    p = subprocess.run([cybuild.PY, path, json.dumps({"tree": tree, "cwd": src, "files": usable, "outdir": od})],
+                       capture_output=True, text=True, env=env, timeout=3000)
+    try:
+        res = json.loads(p.stdout.strip().splitlines()[-1])
+    except Exception:
+        ctx.corr_break("self-compiled compiler run", "selfc", (p.stderr or p.stdout)[-600:], "runs")
+        return
+    ctx.extra["selfcompiled_modules_loaded"] = res.get("_compiled_modules")
+    if not res.get("_compiled_modules"):
+        ctx.corr_break("self-compiled compiler run", "selfc", "no compiled compiler module was loaded", "compiled modules in use")
+        return
+    for f in usable:
+        a = open(os.path.join(ref_dir, f[:-4] + ".c"), "rb").read()
+        pth = os.path.join(od, f[:-4] + ".c")
+        b = open(pth, "rb").read() if os.path.exists(pth) else None
+        ctx.case("self-compiled", {"module": f}, sig=(f, "selfc"))
+        if b is None:
+            ctx.fail("selfcompiled_compile_failed", {"module": f, "status": str(res.get(f))[:300]}, None, "C file produced by the self-compiled compiler")
+        elif a != b:
+            ctx.fail("c_output_depends_on_compiled_compiler", {"module": f}, first_diff(a, b), "byte-identical C files")
 
 
 def first_diff(a, b):
